@@ -100,7 +100,7 @@ func RunOnce(sc Scenario, choices []int, maxSteps int, expectSigs []string) (*Ex
 
 // switchCost: 1 if alternative k picks a non-default successor at a point where nothing is preempted.
 func switchCost(p *Point, k int) int {
-	if k == 0 || p.Enabled[k].Thread < 0 || p.Enabled[k].Kind == OpSleep {
+	if k == 0 || p.Enabled[k].Thread < 0 || p.Enabled[k].Kind == OpSleep || p.Enabled[k].Kind == OpChoice {
 		return 0
 	}
 	if p.RunningEnabled {
@@ -112,6 +112,12 @@ func switchCost(p *Point, k int) int {
 // cost of taking alternative k at point p: (preemptions, deviations)
 func choiceCost(p *Point, k int) (int, int) {
 	c := p.Enabled[k]
+	if c.Kind == OpChoice {
+		if k == 0 {
+			return 0, 0
+		}
+		return 0, 1
+	}
 	if c.Thread < 0 {
 		for _, e := range p.Enabled {
 			if e.Thread >= 0 {
